@@ -21,6 +21,8 @@ import json
 import os
 import re
 
+from vlib import xlsxx
+
 from . import c07
 
 ID = "C08"
@@ -113,14 +115,12 @@ def cmp_string(cx, cached, cell, role, where):
 
 def check_ref(cx, f):
     """one c:f and the cache next to it against the workbook"""
-    from vlib import xlsxx
-
     j = cx.j
     parent = f.getparent()
-    kind = c07.local(parent)
-    src = c07.local(parent.getparent())
+    kind = xlsxx.local(parent)
+    src = xlsxx.local(parent.getparent())
     role = ROLE.get(src, src)
-    cache = c07.read_cache(next((x for x in parent if c07.local(x).endswith("Cache")), None))
+    cache = xlsxx.read_cache(next((x for x in parent if xlsxx.local(x).endswith("Cache")), None))
     j.acc.count("cf_ranges_checked")
     try:
         ref = xlsxx.parse_ref(f.text or "")
@@ -153,13 +153,13 @@ def check_ref(cx, f):
 
 def check_package(j, data, partname, desc):
     """follow chart part -> c:externalData -> relationship -> workbook part in the saved package, then every c:f. -> Ctx or None"""
-    from vlib import opcx, xlsxx
+    from vlib import opcx
 
     pkg = opcx.Pkg.from_bytes(data)
     if not pkg.has_part(partname) or pkg.ctype(partname) != CT_CHART:
         return j.bad("chart-part-missing-or-mistyped", "%s: present=%s type=%r" % (partname, pkg.has_part(partname), pkg.has_part(partname) and pkg.ctype(partname)))
     root = pkg.xml_root(partname)
-    model = c07.read_chart(root)
+    model = xlsxx.read_chart(root)
     rel = next((r for r in pkg.rels(partname) or [] if r.id == model["ext_rid"]), None)
     j.acc.count("externalData_links_followed")
     if model["ext_rid"] is None or rel is None or rel.external or not pkg.has_part(rel.target):
@@ -173,7 +173,7 @@ def check_package(j, data, partname, desc):
     j.acc.count("workbooks_read")
     cats = desc.get("cats") or {}
     cx = Ctx(j, wb, model["date1904"], cats.get("kind") == "date", any("T" in x for x in cats.get("labels", ()) if isinstance(x, str)) and cats.get("kind") == "date")
-    for f in root.iter(c07.c("f")):
+    for f in root.iter(xlsxx.c("f")):
         check_ref(cx, f)
     for p in wb.problems:
         j.bad("workbook-malformed", p)
@@ -201,7 +201,7 @@ def save(prs):
 
 
 def has_ext(chart):
-    return chart.part._element.find(c07.c("externalData")) is not None
+    return chart.part._element.find(xlsxx.c("externalData")) is not None
 
 
 # ------------------------------------------------------------------ cases
@@ -271,7 +271,7 @@ def run_corpus(case, acc):
     for n, chart in enumerate(c07.iter_charts(prs)):
         rnd = c07.rng("C08c", n, *case["seed"])
         kind = c07.corpus_kind(etree.fromstring(chart.part.blob, xsdkit.PLAIN))
-        if kind is None or chart.part._element.find(".//" + c07.c("ser")) is None:
+        if kind is None or chart.part._element.find(".//" + xlsxx.c("ser")) is None:
             acc.count("corpus_charts_without_series_skipped")  # replace_data cannot clone a series there: C07's finding
             continue
         force = {"cats": "date", "npts": 5} if case["mode"] == "date1904" and kind == "category" and n % 2 == 0 else {}
@@ -295,7 +295,6 @@ def run_corpus(case, acc):
 def run_colrefs(unit, acc):
     """CategoryWorkbookWriter._column_reference against two independent references, every n of the sheet's width"""
     from pptx.chart.xlsx import CategoryWorkbookWriter
-    from vlib import xlsxx
     from xlsxwriter.utility import xl_col_to_name
 
     for n in range(unit["lo"], unit["hi"]):
